@@ -164,3 +164,209 @@ def s_tcp_start(vc):
         vc.ensure("ok.state_relay", h is not None and _is_method(vc, h, "relay_messages"))
         vc.ensure("ok.start_hook_iff_flow", kinds.count("TcpStartHook") == (1 if with_flow else 0))
         vc.ensure("ok.opens_iff_needed", kinds.count("OpenConnection") == (0 if already_open else 1))
+
+
+# ---------------------------------------------------------------------------------------------
+# UDP
+
+
+def mk_udp_layer(vc, with_flow):
+    client = mk_client(vc, transport_protocol="udp")
+    server = mk_server(vc, timestamp_start=2.0, transport_protocol="udp")
+    ctx = mk_context(vc, client, server)
+    flow = None
+    if with_flow:
+        flow = vc.new("mitmproxy.udp:UDPFlow", client_conn=client, server_conn=server, messages=vc.list([]), live=True,
+                      error=None, id="flow-id", intercepted=False, marked="", is_replay=None, metadata=vc.dict([]), comment="",
+                      timestamp_created=1.0, _backup=None)
+    layer = vc.new(U, context=ctx, flow=flow, debug=None, _paused=None, _paused_event_queue=None)
+    return layer, client, server, flow
+
+
+@scenario("udp.relay.data", functions=[U + ".relay_messages"])
+def s_udp_data(vc):
+    with_flow = vc.case("with_flow", [True, False])
+    from_client = vc.case("from_client", [True, False])
+    injected = vc.case("injected", [False, True])
+    layer, client, server, flow = mk_udp_layer(vc, with_flow)
+    data = vc.sym_bytes("data")
+    src, dst = (client, server) if from_client else (server, client)
+    if injected:
+        msg = vc.new("mitmproxy.udp:UDPMessage", from_client=from_client, content=data, timestamp=5.0)
+        ev = vc.new("mitmproxy.proxy.layers.udp:UdpMessageInjected", flow=flow, message=msg)
+    else:
+        ev = vc.new("mitmproxy.proxy.events:DataReceived", connection=src, data=data)
+    edited = vc.sym_bytes("edited")
+
+    def on_yield(cmd):
+        if is_cmd(cmd, "UdpMessageHook"):
+            cmd.flow.messages[-1].content = edited
+
+    out = vc.call(U + ".relay_messages", layer, ev, on_yield=on_yield)
+    vc.ensure("no_exception", out.ok)
+    if not out.ok:
+        return
+    tr = out.trace
+    if with_flow:
+        vc.ensure("trace.shape", len(tr) == 2 and is_cmd(tr[0], "UdpMessageHook") and is_cmd(tr[1], "SendData"))
+        if len(tr) != 2:
+            return
+        vc.ensure("recorded.once", len_(flow.messages) == 1)
+        m = flow.messages[0]
+        vc.ensure("recorded.direction", vc.eq(m.from_client, from_client))
+        vc.ensure("send.target", tr[1].connection is dst)
+        vc.ensure("send.content_is_recorded_after_hook", And(tr[1].data == m.content, tr[1].data == edited))
+    else:
+        vc.ensure("trace.shape", len(tr) == 1 and is_cmd(tr[0], "SendData"))
+        if len(tr) != 1:
+            return
+        vc.ensure("send.target", tr[0].connection is dst)
+        vc.ensure("send.bytes_unmodified", tr[0].data == data)
+    vc.ensure("state.unchanged", "_handle_event" not in (layer.__dict__ if vc.mode == "native" else layer.fields))
+
+
+@scenario("udp.relay.close", functions=[U + ".relay_messages", U + ".done"])
+def s_udp_close(vc):
+    with_flow = vc.case("with_flow", [True, False])
+    from_client = vc.case("from_client", [True, False])
+    layer, client, server, flow = mk_udp_layer(vc, with_flow)
+    src, dst = (client, server) if from_client else (server, client)
+    ev = vc.new("mitmproxy.proxy.events:ConnectionClosed", connection=src)
+    out = vc.call(U + ".relay_messages", layer, ev)
+    vc.ensure("no_exception", out.ok)
+    if not out.ok:
+        return
+    kinds = trace_kinds(out.trace)
+    vc.ensure("end.trace", kinds == ["CloseConnection"] + (["UdpEndHook"] if with_flow else []))
+    vc.ensure("end.closes_other_side", all(c.connection is dst for c in out.trace if is_cmd(c, "CloseConnection")))
+    h = (layer.fields if vc.mode == "sym" else layer.__dict__).get("_handle_event")
+    vc.ensure("end.state_done", h is not None and _is_method(vc, h, "done"))
+    if with_flow:
+        vc.ensure("end.flow_not_live", vc.eq(flow.live, False))
+    # after the end: nothing is relayed any more
+    ev2 = vc.new("mitmproxy.proxy.events:DataReceived", connection=dst, data=vc.sym_bytes("late"))
+    out2 = vc.call(U + ".done", layer, ev2)
+    vc.ensure("done.emits_nothing", out2.ok and len(out2.trace) == 0)
+
+
+@scenario("udp.start", functions=[U + ".start"])
+def s_udp_start(vc):
+    with_flow = vc.case("with_flow", [True, False])
+    already_open = vc.case("server_open", [True, False])
+    layer, client, server, flow = mk_udp_layer(vc, with_flow)
+    server.timestamp_start = 2.0 if already_open else None
+    fails = vc.sym_bool("connect_fails")
+    errmsg = vc.sym_str("errmsg")
+    vc.assume(len_(errmsg) > 0)
+
+    def on_yield(cmd):
+        if is_cmd(cmd, "OpenConnection"):
+            return If(fails, errmsg, None) if vc.mode == "sym" else (errmsg if fails else None)
+
+    out = vc.call(U + ".start", layer, vc.new("mitmproxy.proxy.events:Start"), on_yield=on_yield)
+    vc.ensure("no_exception", out.ok)
+    if not out.ok:
+        return
+    kinds = trace_kinds(out.trace)
+    h = (layer.fields if vc.mode == "sym" else layer.__dict__).get("_handle_event")
+    failed = (not already_open) and vc.branch(fails)
+    if failed:
+        vc.ensure("fail.error_hook_once_iff_flow", kinds.count("UdpErrorHook") == (1 if with_flow else 0))
+        vc.ensure("fail.no_end_hook", "UdpEndHook" not in kinds)
+        vc.ensure("fail.client_closed", any(is_cmd(c, "CloseConnection") and c.connection is client for c in out.trace))
+        vc.ensure("fail.state_done", h is not None and _is_method(vc, h, "done"))
+    else:
+        vc.ensure("ok.no_end_or_error_hook", "UdpErrorHook" not in kinds and "UdpEndHook" not in kinds)
+        vc.ensure("ok.state_relay", h is not None and _is_method(vc, h, "relay_messages"))
+
+
+# =============================================================================================
+# T2: real TCPLayer / UDPLayer driven sans-io over all event sequences up to a bound
+
+def bounded(tier, seed):
+    import itertools
+    from mitmproxy.proxy.layers import tcp as LT, udp as LU
+    from mitmproxy.proxy import events
+    from mitmproxy import tcp as mtcp, udp as mudp
+    from mitmproxy.connection import ConnectionState
+    from props import sansio
+
+    b = Bounded()
+    depth = 4 if tier == "quick" else 6
+    b.rule = ("event sequences over {data from client, data from server, injected c->s, injected s->c, close client, close server} for the real "
+              "TCPLayer/UDPLayer x {flow, ignore} x addon policy {keep, edit}; distinct = (proto, flow?, policy, sequence); non-trivial = contains a close")
+    b.bound = f"all sequences of length <= {depth}"
+    b.exhaustive = True
+    syms = ["dc", "ds", "ic", "is", "cc", "cs"]
+    for proto, Layer, Inj, Msg in (("tcp", LT.TCPLayer, LT.TcpMessageInjected, mtcp.TCPMessage), ("udp", LU.UDPLayer, LU.UdpMessageInjected, mudp.UDPMessage)):
+        for ignore in (False, True):
+            for policy in ("keep", "edit"):
+                for n in range(1, depth + 1):
+                    for seq in itertools.product(syms, repeat=n):
+                        if ignore and any(s.startswith("i") for s in seq):
+                            continue
+                        ctx = sansio.context_for()
+                        ctx.client.transport_protocol = proto
+                        ctx.server.address = ("example.com", 80)
+                        ctx.server.transport_protocol = proto
+                        lay = Layer(ctx, ignore=ignore)
+
+                        def pol(hook):
+                            if policy == "edit" and hook.name.endswith("_message"):
+                                m = hook.flow.messages[-1]
+                                m.content = m.content + b"!"
+
+                        d = sansio.Driver(lay, hook_policy=pol)
+                        d.start()
+                        expect = {ctx.client.id: b"", ctx.server.id: b""}
+                        ended = False
+                        k = 0
+                        closed_c = closed_s = False
+                        for s in seq:
+                            k += 1
+                            payload = bytes([64 + k])
+                            before = (d.bytes_to(ctx.client), d.bytes_to(ctx.server))
+                            if s in ("dc", "ds"):
+                                src = ctx.client if s == "dc" else ctx.server
+                                if (src is ctx.client and closed_c) or (src is ctx.server and closed_s):
+                                    continue
+                                d.data(src, payload)
+                                fromc = s == "dc"
+                            elif s in ("ic", "is"):
+                                fromc = s == "ic"
+                                d.feed(Inj(lay.flow, Msg(fromc, payload)))
+                            else:
+                                src = ctx.client if s == "cc" else ctx.server
+                                if (src is ctx.client and closed_c) or (src is ctx.server and closed_s):
+                                    continue
+                                if src is ctx.client:
+                                    closed_c = True
+                                else:
+                                    closed_s = True
+                                d.close(src)
+                                if proto == "udp" or (closed_c and closed_s):
+                                    ended = True
+                                continue
+                            if not ended:
+                                dst = ctx.server if fromc else ctx.client
+                                expect[dst.id] += payload + (b"!" if (policy == "edit" and not ignore) else b"")
+                        b.case((proto, ignore, policy, seq), nontrivial=any(s.startswith("c") for s in seq))
+                        inp = {"proto": proto, "ignore": ignore, "policy": policy, "seq": list(seq)}
+                        for conn in (ctx.client, ctx.server):
+                            if d.bytes_to(conn) != expect[conn.id]:
+                                b.fail(f"{proto}.relay_exact", inp, f"to {'client' if conn is ctx.client else 'server'}: got {d.bytes_to(conn)!r} expected {expect[conn.id]!r}")
+                        names = d.hook_names()
+                        n_end = names.count(f"{proto}_end") + names.count(f"{proto}_error")
+                        if not ignore:
+                            if n_end != (1 if ended else 0):
+                                b.fail(f"{proto}.exactly_one_end", inp, f"hooks={names}")
+                            if lay.flow.live != (not ended):
+                                b.fail(f"{proto}.live_flag", inp, f"live={lay.flow.live} ended={ended}")
+                            rec = [m.content for m in lay.flow.messages]
+                            if b"".join(rec) != b"".join(c for _, c in d.sent_chunks):
+                                b.fail(f"{proto}.recorded_equals_sent", inp, f"recorded={rec} sent={d.sent_chunks}")
+                        if proto == "tcp" and (closed_c != closed_s):
+                            halves = [c for c, half in d.closed if half]
+                            if len(halves) != 1:
+                                b.fail("tcp.half_close_propagated", inp, f"closed={d.closed}")
+    return b
